@@ -92,3 +92,45 @@ class ForSpec(object):
         self.havoc(I, frame, n)
         E.assume(self.invariant(I, frame, n))
         I.exec_block(node.orelse, frame)
+
+
+class CompSpec(object):
+    """Contract for a list comprehension `[elt for target in iterable]` over an iterable of SYMBOLIC length.
+
+    length(I, iterable) -> n;  element(I, iterable, j) -> j-th item;  invariant(I, frame, j);  havoc(I, frame, j);
+    produced(I, j, value): called with the value computed for index j (record / check it);
+    result(I, n) -> the abstract list standing for the comprehension's value after n elements.
+    Scheme as for ForSpec: invariant(0); arbitrary 0 <= j < n: assume invariant(j), evaluate the element expression
+    once, check invariant(j+1); afterwards assume invariant(n) and continue with result(n).
+    """
+
+    def __init__(self, label, length, element, invariant, havoc, produced, result):
+        self.label, self.length, self.element = label, length, element
+        self.invariant, self.havoc, self.produced, self.result = invariant, havoc, produced, result
+
+    def run_comp(self, I, node, frame):
+        from .interp import Frame
+        E = I.E
+        if len(node.generators) != 1 or node.generators[0].ifs:
+            from .values import Unsupported
+            raise Unsupported('comprehension contract needs a single generator without conditions')
+        g = node.generators[0]
+        it = I.eval(g.iter, frame)
+        n = self.length(I, it)
+        E.notes.append('comprehension contract %s (invariant over the element index)' % self.label)
+        E.check('%s.inv-entry' % self.label, self.invariant(I, frame, 0), kind='loop')
+        b = E.new_bool('%s.iterate' % self.label)
+        if E.decide(b.t):
+            j = E.new_int('%s.j' % self.label, 0, None)
+            E.assume(j < n)
+            self.havoc(I, frame, j)
+            E.assume(self.invariant(I, frame, j))
+            fr = Frame(frame.globals, frame, frame.qualname)
+            I.assign(g.target, self.element(I, it, j), fr)
+            v = I.eval(node.elt, fr)
+            self.produced(I, j, v)
+            E.check('%s.inv-preserved' % self.label, self.invariant(I, frame, j + 1), kind='loop')
+            raise PathEnd('comprehension element verified')
+        self.havoc(I, frame, n)
+        E.assume(self.invariant(I, frame, n))
+        return self.result(I, n)
